@@ -217,10 +217,15 @@ pub(crate) fn parse_internal_number<S: TexlangState>(
                 variable::ValueRef::MathCode(c) => Ok(InternalNumber::Integer(c.0 as i32)),
                 variable::ValueRef::Dimen(d) => Ok(InternalNumber::Dimen(*d)),
                 variable::ValueRef::Glue(g) => Ok(InternalNumber::Glue(*g)),
-                variable::ValueRef::Font(_) => {
-                    // This case behaves identically to the TokenListCase
-                    todo!("scan a font into an int?");
-                }
+                // A font variable behaves identically to the token list case.
+                variable::ValueRef::Font(_) => Err(input.fatal_error(
+                    parse::Error::new(
+                        "the beginning of a number",
+                        Some(first_token),
+                        GUIDANCE_BEGINNING,
+                    )
+                    .with_annotation_override("font variable"),
+                )),
                 variable::ValueRef::TokenList(_) => Err(input.fatal_error(
                     parse::Error::new(
                         "the beginning of a number",
